@@ -1,6 +1,8 @@
 """Suites shared by C01 and C06: calculate_protein_fdrs and from_protein_groups."""
 from fractions import Fraction
 
+import numpy as np
+
 from .. import core, gens
 from ..core import Suite, cQ, cstr, clist, cpair, copt, cbool, cnat, cok, craise
 
@@ -140,6 +142,10 @@ class RowsSuite(Suite):
                 peptides = rng.sample(gens.PEPTIDES, npep)
                 inf = []
                 levels = [gens.norm(x) for x in ["0/1", "1/1024", "1/2048", "1/100", "1/2", "1/1", "3/1024"]]
+                # the doubles next to the cutoffs used below, and values a few parts in 10^10 / 10^12 away: "at or below" is exact
+                for c_ in (0.01, 1 / 1024, 0.5):
+                    levels += [gens.fr(float(np.nextafter(c_, 1))), gens.fr(float(np.nextafter(c_, 0))), gens.fr(c_ * (1 + 5e-10)),
+                               gens.fr(c_ * (1 - 5e-10)), gens.fr(c_ * (1 + 3e-12))]
                 for e in peptides:
                     prots = [rng.choice(g) for _ in range(rng.choice([1, 1, 2, 3]))]
                     if rng.random() < 0.15:
